@@ -720,6 +720,12 @@ class Fam:
                 gens.setdefault(g, set()).add(a)
         for (g, a) in t.generic:
             gens.setdefault(g, set()).add(a)
+        # a generic class mentioned without arguments (e.g. through a forward reference "K1") is one more specialisation
+        for c in reach:
+            for f in self.classes[c]["all_fields"]:
+                for d in f["type"].classes:
+                    if self.classes.get(d, {}).get("generic") and not any(g == d for g, _ in f["type"].generic):
+                        gens.setdefault(d, set()).add("")
         return {
             "cyclic": self.cyclic(t),
             "selftype": any(self.classes[c]["selfref"] for c in reach) or t.selfref,
